@@ -103,9 +103,11 @@ def proof_obligations(pid, spec, tier):
         res["problems"].append("forbidden tokens: " + "; ".join(hits[:10]))
     if tier == "thorough" and res["ok"] and spec.get("coqchk", True):
         mods = ["BP." + pf[:-2].replace("/", ".") for pf in spec["prop_files"]]
-        rc, out = vlib.sh("cd %s && timeout 1500 coqchk -silent -o -Q theories BP %s 2>&1 | tail -30" % (vlib.COQ, " ".join(mods)), timeout=1600)
+        rc, out = vlib.sh("cd %s && (timeout 1500 coqchk -silent -o -Q theories BP %s 2>&1; echo COQCHK_EXIT=$?) | tail -40" % (vlib.COQ, " ".join(mods)), timeout=1600)
         res["coqchk"] = out[-1500:]
-        if "Modules were successfully checked" not in out:
+        m_ax = re.search(r"\* Axioms:\s*(.*?)\n\s*\n", out, re.S)
+        axioms_none = bool(m_ax) and m_ax.group(1).strip() == "<none>"
+        if "COQCHK_EXIT=0" not in out or not axioms_none:
             res["ok"] = False
             res["problems"].append("coqchk failed: " + out[-800:])
     res["wall"] = time.time() - t0
